@@ -3,6 +3,7 @@ CONSTANTS
   Procs <- P3
   Types <- SharedTypes
   ChildSeq <- SharedChild
+  Invalid <- NoneInvalid
   Pkg <- SharedPkg
   CallChoices <- SharedCalls3
   Guard = "none"
